@@ -111,7 +111,7 @@ EXTRA2 = {'C01': ' Rounds 4-5: size lines of exactly 128 bytes.', 'C02': ' Round
 for _k, _v in EXTRA2.items():
     C[_k]["text"] += _v
 
-EXTRA3 = {'C01': ' Round 6: the coding name in upper and mixed case.', 'C04': ' Round 6: Transfer-Encoding values that are not acted on (identity, compress, unknown, parameters, empty, a trailing comma, a second line) are hidden all the same; a head of 1.1 MB within every stated limit.', 'C05': ' Round 6: a worker that stops answering is itself a verdict (hang watchdog).', 'C06': ' Round 6: a complete framed body behind which the server keeps the connection open: the end is reported without asking for more.', 'C07': " Round 6: empty caller-supplied User-Agent / Accept values; credentials whose base64 form needs '+' and '/'; multipart bodies decoded back to the parts the caller added.", 'C08': " Round 6: a literal '@' in path and query behind the authority.", 'C18': ' Round 6: Content-Type parameters that are not a charset.'}
+EXTRA3 = {'C01': ' Round 6: the coding name in upper and mixed case.', 'C04': ' Round 6: Transfer-Encoding values that are not acted on (identity, compress, unknown, parameters, empty, a trailing comma, a second line) are hidden all the same; a head of 1.1 MB within every stated limit.', 'C05': ' Round 6: a worker that stops answering is itself a verdict (hang watchdog).', 'C06': ' Round 6: a complete framed body behind which the server keeps the connection open: the end is reported without asking for more.', 'C07': " Round 6: empty caller-supplied User-Agent / Accept values; credentials whose base64 form needs '+' and '/'; multipart bodies decoded back to the parts the caller added.", 'C08': " Round 6: a literal '@' in path and query behind the authority.", 'C13': ' Round 6: coded bodies cut by the deadline with a caller that reads on (18 cells); descriptor exhaustion at each of the first four allocations of a request with a deadline.', 'C18': ' Round 6: Content-Type parameters that are not a charset.'}
 for _k, _v in EXTRA3.items():
     C[_k]["text"] += _v
 
